@@ -520,7 +520,7 @@ def w_dt_inv(S, item):
     if problems:
         res['diff'] = 1
         what, msg = problems[0]
-        what = {'boundary': 'values', 'offset': 'values', 'filter': 'values'}.get(what, what)
+        what = {'boundary': 'values', 'offset': 'values', 'filter': 'values', 'structure': 'values'}.get(what, what)
         res['findings'].append(finding('NF', construct, '%s:%s:%s' % (opt, size_class, what),
                                        'biort=%s qshift=%s HxW=%dx%d J=%d absent=%s(%s) low_absent=%s: %s'
                                        % (biort, qshift, H, W, J, bin(absent_mask), absent_kind, low_absent, msg),
